@@ -559,6 +559,9 @@ class Session:
             ans = yield from self.wait_answer(t_req)
             if ans is None:
                 unanswered_streak += 1
+                if retry and not H["in_sync"]:
+                    res.unjudged += 1       # consequence of an already reported, invisible loss of sequence synchronisation
+                    raise GiveUp()
                 if retry and H["cur_zlp_standalone"]:
                     mech = "zlp_after_pure_ack_keeps_old_sequence_number"
                 elif retry:
@@ -583,6 +586,9 @@ class Session:
                 res.event("nrdy_seen")
                 self.check_hs_endpoint("nrdy", ans[2])
                 if must_data:
+                    if retry and not H["in_sync"]:
+                        res.unjudged += 1
+                        raise GiveUp()
                     if retry:
                         self.violation("zlp_after_pure_ack_keeps_old_sequence_number" if H["cur_zlp_standalone"] else "nrdy_instead_of_retransmission", "retry at %d answered with NRDY" % t_req)
                         raise GiveUp()
@@ -602,6 +608,9 @@ class Session:
                 raise GiveUp()
             if dp["zlp"] and H["zlp_flag"] and not retry:
                 self.zlp_repeated(dp)
+            if not retry and not H["in_sync"] and dp.get("data") is not None and dp["data"] == H["prev_data"]:
+                res.unjudged += 1           # the previous packet again: consequence of an already reported, invisible loss of sequence sync
+                raise GiveUp()
             if not retry and not dp.get("broken") and (H["next"] >= len(exp) or exp[H["next"]]["t"] >= dp["start"]):
                 # (judged at the time the answer starts, not at the time of the request: a slower endpoint may legitimately
                 # answer with a packet that became complete after the request)
@@ -877,7 +886,7 @@ class Session:
             H["cur_zlp_standalone"] = dp["zlp"] and kind == "in"
         single = (not dp["zlp"]) and len(dp["data"]) <= 4
         if dp["data"] != want:
-            if not retry and not H["in_sync"] and dp["data"] == H["prev_data"]:
+            if not H["in_sync"] and (retry or dp["data"] == H["prev_data"]):
                 res.unjudged += 1           # consequence of an earlier, already reported loss of sequence synchronisation
                 return False
             if retry and H["cur_zlp_standalone"]:
